@@ -195,7 +195,7 @@ UNOPS = {"Not", "Neg", "PtrMetadata"}
 def parse_rvalue(s: str):
     s = s.strip()
     if s.startswith("&"):
-        m = re.match(r"&(raw const |raw mut |mut |fake shallow |fake )?", s)
+        m = re.match(r"&(raw const \(fake\) |raw mut \(fake\) |raw const |raw mut |mut |fake shallow |fake )?", s)
         kind = (m.group(1) or "").strip()
         return ("ref", kind, parse_place(s[m.end():]))
     if s.endswith(")") and find_top(s, " as ") > 0 and not s.startswith(("&", "[", "(")):
